@@ -43,22 +43,47 @@ impl V {
     }
 }
 
-pub fn by_ord(a: &V, b: &V) -> Ordering {
-    a.k_ord().cmp(&b.k_ord())
+/// the key functions of `V`, available on a type parameter declared `T: dxrt::Kt` (instantiated with `V`), so that
+/// `key = $.k_ord()` / `by = dxrt::by_ord` can sit on a field whose type is a parameter of the item
+pub trait Kt {
+    fn v(&self) -> &V;
+    fn k_ord(&self) -> u8 {
+        self.v().k_ord()
+    }
+    fn k_partial_ord(&self) -> Pv {
+        self.v().k_partial_ord()
+    }
+    fn k_eq(&self) -> u8 {
+        self.v().k_eq()
+    }
+    fn k_partial_eq(&self) -> u8 {
+        self.v().k_partial_eq()
+    }
+    fn k_hash(&self) -> u8 {
+        self.v().k_hash()
+    }
 }
-pub fn by_partial_ord(a: &V, b: &V) -> Option<Ordering> {
-    a.k_partial_ord().partial_cmp(&b.k_partial_ord())
+impl Kt for V {
+    fn v(&self) -> &V {
+        self
+    }
 }
-pub fn by_eq(a: &V, b: &V) -> bool {
-    a.k_eq() == b.k_eq()
+pub fn by_ord<A: Kt>(a: &A, b: &A) -> Ordering {
+    a.v().k_ord().cmp(&b.v().k_ord())
 }
-pub fn by_partial_eq(a: &V, b: &V) -> bool {
-    a.k_partial_eq() == b.k_partial_eq()
+pub fn by_partial_ord<A: Kt>(a: &A, b: &A) -> Option<Ordering> {
+    a.v().k_partial_ord().partial_cmp(&b.v().k_partial_ord())
+}
+pub fn by_eq<A: Kt>(a: &A, b: &A) -> bool {
+    a.v().k_eq() == b.v().k_eq()
+}
+pub fn by_partial_eq<A: Kt>(a: &A, b: &A) -> bool {
+    a.v().k_partial_eq() == b.v().k_partial_eq()
 }
 pub const BY_HASH_MARK: u8 = 0xB7;
-pub fn by_hash<H: Hasher>(a: &V, state: &mut H) {
+pub fn by_hash<A: Kt, H: Hasher>(a: &A, state: &mut H) {
     state.write_u8(BY_HASH_MARK);
-    a.k_hash().hash(state);
+    a.v().k_hash().hash(state);
 }
 
 // consistent-key versions (C02)
@@ -88,6 +113,13 @@ pub fn pby_eq(a: &V, b: &V) -> bool {
 
 #[derive(Clone, Copy, Debug, Default)]
 pub struct Pv(pub u8);
+/// `key * <expr fragment>` of `KeyForm::Fragment` on the partial key
+impl core::ops::Mul<u8> for Pv {
+    type Output = Pv;
+    fn mul(self, r: u8) -> Pv {
+        Pv(self.0 * r)
+    }
+}
 impl Hash for Pv {
     fn hash<H: Hasher>(&self, h: &mut H) {
         h.write_u8(self.0)
